@@ -45,17 +45,10 @@ def ltIdx (D : Dendro α) (t u : Nat) : Bool :=
   | _, _ => false
 
 theorem insertIdx_eq (D : Dendro α) (t u : Nat) (us : List Nat) :
-    insertIdx D t (u :: us) = if ltIdx D t u then t :: u :: us else u :: insertIdx D t us := by
+    insertIdx D t (u :: us) = if ltIdx D u t then u :: insertIdx D t us else t :: u :: us := by
   unfold ltIdx
   rw [insertIdx]
-  split
-  · rename_i rt ru h1 h2
-    simp only [h1, h2]
-  · rename_i h
-    split
-    · rename_i rt ru h1 h2
-      exact absurd h2 (h rt ru h1)
-    · simp
+  cases h1 : D[t]? <;> cases h2 : D[u]? <;> simp
 
 theorem ltIdx_asymm {D : Dendro α} {a b : Nat} (h : ltIdx D a b = true) : ltIdx D b a = false := by
   unfold ltIdx at h ⊢
@@ -68,11 +61,35 @@ theorem ltIdx_trans {D : Dendro α} {a b c : Nat} (h1 : ltIdx D a b = true) (h2 
   cases ha : D[a]? <;> cases hb : D[b]? <;> cases hc : D[c]? <;> simp_all
   exact keyLt_trans h1 h2
 
+/-- the key order is a strict weak order: what is below `c` is below `b` or `b` is below `c` -/
+theorem keyLt_negtrans {a c : Row α} (b : Row α) (h : keyLt a c = true) : keyLt a b = true ∨ keyLt b c = true := by
+  rw [keyLt_iff] at h
+  rw [keyLt_iff, keyLt_iff]
+  by_cases h1 : a.h < b.h
+  · exact Or.inl (Or.inl h1)
+  · by_cases h2 : b.h < c.h
+    · exact Or.inr (Or.inl h2)
+    · -- b.h ≤ a.h and c.h ≤ b.h
+      rcases h with h | ⟨h3, h4⟩
+      · exact absurd (lt_of_lt_of_le h (not_lt.mp h2)) h1
+      · have hba : ¬ b.h < a.h := fun hh => h3 (lt_of_le_of_lt (not_lt.mp h2) hh)
+        have hcb : ¬ c.h < b.h := fun hh => h3 (lt_of_lt_of_le hh (not_lt.mp h1))
+        by_cases h5 : mx a < mx b
+        · exact Or.inl (Or.inr ⟨hba, h5⟩)
+        · exact Or.inr (Or.inr ⟨hcb, by omega⟩)
+
+theorem ltIdx_negtrans {D : Dendro α} {a c : Nat} (b : Nat) (hb : b < D.length) (h : ltIdx D a c = true) :
+    ltIdx D a b = true ∨ ltIdx D b c = true := by
+  unfold ltIdx at h ⊢
+  rw [List.getElem?_eq_getElem hb]
+  cases ha : D[a]? <;> cases hc : D[c]? <;> simp_all
+  exact keyLt_negtrans _ h
+
 /-- sortedness: no later element is strictly smaller than an earlier one -/
 def SortedIdx (D : Dendro α) (l : List Nat) : Prop := l.Pairwise fun a b => ltIdx D b a = false
 
-theorem insertIdx_sorted (D : Dendro α) (t : Nat) (l : List Nat) (hl : SortedIdx D l) :
-    SortedIdx D (insertIdx D t l) := by
+theorem insertIdx_sorted (D : Dendro α) (t : Nat) (l : List Nat) (hv : ∀ x ∈ l, x < D.length)
+    (hl : SortedIdx D l) : SortedIdx D (insertIdx D t l) := by
   induction l with
   | nil => simp [insertIdx, SortedIdx]
   | cons u us ih =>
@@ -80,29 +97,42 @@ theorem insertIdx_sorted (D : Dendro α) (t : Nat) (l : List Nat) (hl : SortedId
     have hu := List.pairwise_cons.mp hl
     split
     · rename_i hlt
-      refine List.pairwise_cons.mpr ⟨?_, hl⟩
-      intro b hb
-      rcases List.mem_cons.mp hb with e | e
-      · subst e; exact ltIdx_asymm hlt
-      · -- b after u: not (b < u); t < u; so not (b < t)
-        have := hu.1 b e
-        cases hbt : ltIdx D b t with
-        | false => rfl
-        | true => rw [ltIdx_trans hbt hlt] at this; cases this
-    · rename_i hge
-      refine List.pairwise_cons.mpr ⟨?_, ih hu.2⟩
+      refine List.pairwise_cons.mpr ⟨?_, ih (fun x hx => hv x (List.mem_cons_of_mem _ hx)) hu.2⟩
       intro b hb
       have hb' := (insertIdx_perm D t us).subset hb
       rcases List.mem_cons.mp hb' with e | e
-      · subst e; simpa using hge
+      · subst e; exact ltIdx_asymm hlt
       · exact hu.1 b e
+    · rename_i hge
+      refine List.pairwise_cons.mpr ⟨?_, hl⟩
+      intro b hb
+      rcases List.mem_cons.mp hb with e | e
+      · subst e; simpa using hge
+      · -- b after u: not (b < u); not (u < t); so not (b < t)
+        cases hbt : ltIdx D b t with
+        | false => rfl
+        | true =>
+          rcases ltIdx_negtrans u (hv u List.mem_cons_self) hbt with h | h
+          · rw [hu.1 b e] at h; cases h
+          · exact absurd h hge
 
 theorem lexsortIdx_sorted (D : Dendro α) : SortedIdx D (lexsortIdx D) := by
   unfold lexsortIdx
-  generalize List.range D.length = idx
+  have hall : ∀ x ∈ List.range D.length, x < D.length := fun x hx => List.mem_range.mp hx
+  generalize List.range D.length = idx at hall
   induction idx with
   | nil => simp [SortedIdx]
-  | cons t ts ih => simp only [List.foldr_cons]; exact insertIdx_sorted D t _ ih
+  | cons t ts ih =>
+    simp only [List.foldr_cons]
+    have hts : ∀ x ∈ ts, x < D.length := fun x hx => hall x (List.mem_cons_of_mem _ hx)
+    refine insertIdx_sorted D t _ ?_ (ih hts)
+    intro x hx
+    have hperm : (ts.foldr (fun t acc => insertIdx D t acc) []).Perm ts := by
+      clear ih hall hts hx
+      induction ts with
+      | nil => simp
+      | cons a as iha => simp only [List.foldr_cons]; exact (insertIdx_perm D a _).trans (List.Perm.cons a iha)
+    exact hts x (hperm.subset hx)
 
 theorem idxOf_cons_ne' (x : Nat) (xs : List Nat) {y : Nat} (h : x ≠ y) :
     (x :: xs).idxOf y = xs.idxOf y + 1 := by
